@@ -9,6 +9,7 @@ mod c08;
 mod c09;
 mod c10;
 mod c12;
+mod c16;
 mod c18;
 mod c20;
 
@@ -46,6 +47,8 @@ fn main() {
         ("c14", "run") => c10::run(false),
         ("c12", "gen") => c12::gen(seed, thorough),
         ("c12", "run") => c12::run(),
+        ("c16", "gen") => c16::gen(seed, thorough),
+        ("c16", "run") => c16::run(),
         ("c18", "gen") => c18::gen(seed, thorough),
         ("c18", "run") => c18::run(thorough),
         ("c20", "gen") => c20::gen(seed, thorough),
